@@ -241,6 +241,7 @@ pub fn run(args: &Args) -> i32 {
     let reps = args.vol(8, 120);
     let sizes: Vec<(usize, u64)> = (2..=256usize).flat_map(|n| (0..reps).map(move |k| (n, k))).collect();
     sizes.par_iter().for_each(|&(nsym, k)| {
+        let _g = case_guard(13, (nsym as u64) << 16 | k);
         let mut r = Rng::for_case(args.seed, 13, (nsym as u64) << 16 | k);
         // which byte values are used
         let mut vals: Vec<u8> = (0..=255u8).collect();
@@ -298,6 +299,7 @@ pub fn run(args: &Args) -> i32 {
         let count = 13u64.pow(n as u32);
         total += count;
         (0..count).into_par_iter().for_each(|mut x| {
+            let _g = case_guard(130 + n as u64, x);
             let mut w = vec![0u8; n];
             for slot in w.iter_mut() {
                 *slot = (x % 13) as u8;
